@@ -139,7 +139,7 @@ def run(tier, seed):
             for i, line in enumerate(f):
                 if i % (6 if tier == "quick" else 2) == seed % 2:
                     g.write(line)
-        o = vlib.replay("difffault", fscen, env={"VERIF_SEED": str(seed)}, timeout=120)
+        o = vlib.replay("difffault", fscen, env={"VERIF_SEED": str(seed)}, timeout=40)
         vlib.absorb_replay(v, o, "difffault", fscen, crash_sig=lambda sc, t: "diff/fault/crash")
         fcov["diff"] = {"pairs": o.total, "ok": o.passed, "classes": o.classes}
         mscen = os.path.join(vlib.sub("scn"), "merge-yield.ndjson")
@@ -149,7 +149,7 @@ def run(tier, seed):
                 for i, line in enumerate(f):
                     if i % (5 if tier == "quick" else 1) == seed % (5 if tier == "quick" else 1):
                         g.write(line)
-            o = vlib.replay("mergefault", mf, env={"VERIF_SEED": str(seed)}, timeout=180)
+            o = vlib.replay("mergefault", mf, env={"VERIF_SEED": str(seed)}, timeout=60)
             vlib.absorb_replay(v, o, "mergefault", mf, crash_sig=lambda sc, t: "merge/fault/crash")
             fcov["merge"] = {"pairs": o.total, "ok": o.passed, "classes": o.classes}
         for k, c in fcov.items():
